@@ -112,7 +112,15 @@ def explore(start_snap, start_dump, oplist, max_leaves, rng=None):
                     break
             steps.append((c, dict(alive_modes), last))
             return c
+        from harness import app as app_mod
+        hangs0 = app_mod.HANGS[0]
         res, trace, complete = run_with_chooser(reqs, chooser)
+        if app_mod.HANGS[0] > hangs0:
+            # a request of this pair does not terminate (answered 599 by the harness): report this schedule and stop,
+            # every further schedule would cost the same time-out again
+            yield {'schedule': [s[0] for s in steps if s[0] is not None], 'responses': res, 'trace': trace,
+                   'dump': _APP.dump(), 'rowid_reused': False, 'consumer_creators': []}
+            return
         # alternatives beyond the prefix
         for k in range(len(prefix), len(steps)):
             c, alive_modes, last = steps[k]
@@ -284,7 +292,9 @@ def monitors(props, start_snap, start_dump, oplist, leaf, serial_cache):
     sts = [r.status if r is not None else None for r in leaf['responses']]
     n = len(oplist)
     for i, r in enumerate(leaf['responses']):
-        if r is not None and r.status >= 500:
+        if r is not None and r.status == 599:
+            out.append(('request-did-not-terminate:%s' % oplist[i]['op'], 'request %d was abandoned by the harness: %s' % (i, str(r.json)[:120])))
+        elif r is not None and r.status >= 500:
             out.append(('5xx:%s' % oplist[i]['op'], 'request %d answered %s: %s' % (i, r.status, str(r.json)[:200])))
     if 'C05' in props:
         seen = {}
@@ -316,7 +326,7 @@ def monitors(props, start_snap, start_dump, oplist, leaf, serial_cache):
                                     else 'c06:two-successes-same-consumer-generation:%s' % ('null' if key[1] is None else 'int'),
                                     'requests %d and %d both succeeded carrying consumer_generation %s of %s' % (j, i, key[1], key[0])))
                     seen[key] = i
-    if any(p in props for p in ('C04', 'C05', 'C06', 'C07', 'C08', 'C09')):
+    if any(p in props for p in ('C04', 'C05', 'C06', 'C07', 'C08', 'C09', 'C19')):
         ser0 = 'c07:' if any(p in props for p in ('C05', 'C06', 'C07')) else '%s:race:' % sorted(props)[0].lower()
         succ = [i for i in range(n) if ok(sts[i])]
         final = core(leaf['dump'])
@@ -385,8 +395,17 @@ def race_case(args):
         # start state through the API
         _APP.reset()
         g = gen.Gen(rng, weights=profile.get('setup_weights'), n_rps=profile.get('n_rps', 3), mv_mode='latest')
+        from harness import app as app_mod
+        if app_mod.HANGS[0] >= 2:
+            return out
         for _ in range(profile.get('setup_ops', 14)):
-            ops.apply_real(_APP, g.op(gen.View(_APP.dump())))
+            sop = g.op(gen.View(_APP.dump()))
+            if ops.apply_real(_APP, sop).status == 599:
+                out['violations'].append({'kind': 'monitor', 'signature': 'request-did-not-terminate:%s' % sop['op'],
+                                          'detail': 'a request of the start-state construction did not terminate',
+                                          'replay': {'type': 'schedule', 'module': 'harness.conc', 'start_dump': _APP.dump(),
+                                                     'ops': [sop], 'schedule': [], 'props': list(props)}})
+                return out
         if profile.get('picker') == 'tree':
             # the custom classes / traits the deletion-versus-use scenarios name exist in the start state
             for n in gen.CUSTOM_RCS:
@@ -455,7 +474,7 @@ def race_case(args):
                                'trace': [(i, m, sorted(set('%s.%s' % (v0[0], t) for v0, t in [(s, s[1]) for s in st]))) for (i, m, st) in leaf['trace']]}
                 if sum(1 for y in out['violations'] if y['signature'] == x['signature']) < 3:
                     out['violations'].append(x)
-    except Exception:
+    except BaseException:      # incl. an escaped RequestHang: a dead pool worker would hang the check
         out['error'] = traceback.format_exc()
     return out
 
@@ -501,6 +520,19 @@ def final_state_monitors(props, start_dump, oplist, leaf):
             if u in start_dump['consumers'] and u not in {x[1] for x in start_dump['allocs']}:
                 continue
             out.append(('c12:race:%s:consumer-without-allocations' % race, u))
+    if 'C19' in props:
+        names = [n for n, _ in d.get('custom_rcs', [])]
+        ids = [i for _, i in d.get('custom_rcs', [])]
+        if len(set(names)) != len(names) or len(set(d.get('custom_traits', []))) != len(d.get('custom_traits', [])):
+            out.append(('c19:race:duplicate-name:%s' % kinds, str(names)))
+        if len(set(ids)) != len(ids) or any(i < 10000 for i in ids):
+            out.append(('c19:race:custom-class-id:%s' % kinds, str(d.get('custom_rcs'))))
+        sts = [r.status if r is not None else None for r in leaf['responses']]
+        allowed = {'rc_post': (201, 409), 'rc_put': (201, 204), 'trait_put': (201, 204), 'rc_delete': (204, 404, 409),
+                   'trait_delete': (204, 404, 409)}
+        for op, st in zip(oplist, sts):
+            if op['op'] in allowed and st not in allowed[op['op']]:
+                out.append(('c19:race:status:%s:%s' % (op['op'], st), 'statuses %s for %s' % (sts, kinds)))
     if 'C09' in props:
         for e in mon.forest_errors(d['rps']):
             out.append(('c09:race:forest:%s' % kinds, e))
@@ -584,6 +616,18 @@ def pick_tree_race(rng, g, v, profile):
                        step_size=i['step_size'], ratio=i['ratio']) for k, i in sorted(v.invs.items()) if k[0] == a and k[1] != rc]
         return [{'op': 'rc_delete', 'mv': 39, 'name': rc},
                 {'op': 'inv_set', 'mv': 39, 'uuid': a, 'gen': v.rps[a]['gen'], 'invs': cur + [ops.inv(rc, 4)]}]
+    if scen == 'name-create-race':
+        # two requests creating (or creating and deleting) the same custom name
+        n = 'CUSTOM_RACE%d' % rng.randrange(3)
+        kind = rng.choice(['rc_post+rc_post', 'rc_put+rc_put', 'rc_post+rc_put', 'trait_put+trait_put', 'rc_put+rc_delete',
+                           'trait_put+trait_delete', 'rc_post+rc_post-different'])
+        a_, b_ = kind.replace('-different', '').split('+')
+        n2 = n + 'B' if kind.endswith('different') else n
+        return [{'op': a_, 'mv': 39, 'name': n}, {'op': b_, 'mv': 39, 'name': n2}]
+    if scen == 'name-delete-race':
+        n = rng.choice(gen.CUSTOM_RCS + gen.CUSTOM_TRAITS)
+        k = 'rc_delete' if n in gen.CUSTOM_RCS else 'trait_delete'
+        return [{'op': k, 'mv': 39, 'name': n}, {'op': k, 'mv': 39, 'name': n}]
     tr = rng.choice(gen.CUSTOM_TRAITS)
     return [{'op': 'trait_delete', 'mv': 39, 'name': tr},
             {'op': 'rp_traits_set', 'mv': 39, 'uuid': a, 'gen': v.rps[a]['gen'], 'traits': [tr]}]
@@ -634,6 +678,21 @@ def pick_race(rng, g, v, profile):
             op['mv'] = rng.choice([39, 39, 19, 18])
             op['gen'] = v.rps.get(op['uuid'], {}).get('gen', 0) if op['mv'] >= 19 else None
         out.append(op)
+    # directed variant: of two allocation writes for one consumer, one is built to be ACCEPTED on its own (small valid
+    # amounts) and the other to be REJECTED at the write stage (one unit more than is left) - the pattern in which a
+    # clean-up by the rejected request can damage what the accepted one wrote
+    puts = [o for o in out if o['op'] == 'alloc_put']
+    keys = list(v.invs)
+    if len(puts) >= 2 and keys and rng.random() < 0.35:
+        a, b = rng.sample(puts, 2)
+        b['c']['uuid'] = a['c']['uuid']
+        for o in (a, b):
+            cur = v.consumers.get(o['c']['uuid'])
+            o['c']['gen'] = (cur['gen'] if cur else None) if o['mv'] >= 28 else None
+        kk = rng.choice(keys)
+        a['c']['allocs'] = [[kk[0], kk[1], max(1, g.amount_for(v, kk, a['c']['uuid'], share=3))]]
+        kb = rng.choice(keys)
+        b['c']['allocs'] = [[kb[0], kb[1], max(1, v.remaining(kb, b['c']['uuid']) + 1)]]
     return out
 
 
